@@ -253,7 +253,7 @@ func c19Globals(c *Ctx) {
 										if strings.HasPrefix(name, "(*sync.Pool).") {
 											continue // sync.Pool is safe for concurrent use by construction
 										}
-										external[r.g.Name()+" -> "+name] = true
+										external[canonGlobalName(r.g)+" -> "+name] = true
 									}
 								}
 							}
@@ -266,7 +266,7 @@ func c19Globals(c *Ctx) {
 							}
 							if g, ok := baseOf(bnd).(*ssa.Global); ok && !isInit(fn) {
 								if fnv, ok := x.Fn.(*ssa.Function); ok && !load.InModule(fnv) && g.Pkg != nil && inModulePkg(g.Pkg.Pkg.Path()) {
-									external[g.Name()+" -> "+strings.TrimSuffix(fnv.String(), "$bound")] = true
+									external[canonGlobalName(g)+" -> "+strings.TrimSuffix(fnv.String(), "$bound")] = true
 								}
 							}
 						}
@@ -294,7 +294,7 @@ func c19Globals(c *Ctx) {
 		for _, name := range names {
 			g := sp.Members[name].(*ssa.Global)
 			n++
-			key := rule + "/" + shortPkg(sp.Pkg.Path()) + "." + name
+			key := rule + "/" + shortPkg(sp.Pkg.Path()) + "." + canonGlobalName(g)
 			if fs := byGlobal[g]; len(fs) > 0 {
 				c.R.Fail(rule, key, fs[0].pos, fmt.Sprintf("shared variable %s is written after initialisation: %s (%d sites) - concurrent connections race on it", name, fs[0].what, len(fs)))
 			} else {
